@@ -1,5 +1,86 @@
-import Ucfg.Model.Tree
+import Ucfg.Lemmas.Forest
+/-!
+  C10 — merging copies: the source is untouched and nothing is shared.
+
+  Everything Merge stores into the destination is `x.cpy(ctx)` (mergeConfigDict, mergeConfigMergeArr) or goes through
+  fields.append, which copies (`a[i].cpy(ctx)`); since the repair of D18 the same holds for a *Config embedded in the
+  source value (normalizeValue).  On the identity-level model:
+  * `copy_leaves_every_node_untouched`: a copy only allocates - every node that existed (the source, its parents, the
+    rest of the heap) is identical afterwards, so the source's content, path, parent and the expressions it holds are;
+  * `copy_is_made_of_new_nodes`: the copy is the first new node, and no node of it points at a node that existed
+    before - destination and source share no state;
+  * `copy_has_requested_context`: it is linked to its new place;
+  * `append_leaves_sources_untouched` / `append_stores_new_nodes`: the same for the list merge policies;
+  * `write_is_local_*`: the in-place writes change one node, so a later write to one config is invisible through any
+    node that is not that node (with the two theorems above: through the other config).
+  Not proved: that Merge is a composition of these primitives for every policy (the model's header records where each
+  is used; histories through the fingerprint hook check it), and the embedded-config path of normalize.
+-/
 namespace Ucfg.C10
-/-- placeholder while the forest model is being written -/
-theorem stub : True := trivial
+open Ucfg.Forest
+
+/-- the source (and everything else that existed) is bit-for-bit what it was -/
+theorem copy_leaves_every_node_untouched (n : Nat) (h h' : Heap) (id id' : Id) (p : Option Id) (f : String)
+    (he : cpy n h id p f = some (h', id')) : ∀ (i : Nat) (nd : Node), h[i]? = some nd → h'[i]? = some nd :=
+  fun i nd hi => cpy_old_nodes he i nd hi
+
+/-- the copy consists of new nodes only, and none of them points at an old node -/
+theorem copy_is_made_of_new_nodes (n : Nat) (h h' : Heap) (id id' : Id) (p : Option Id) (f : String)
+    (he : cpy n h id p f = some (h', id')) :
+    id' = h.length ∧ h.length < h'.length ∧
+    ∀ (i : Nat) (nd : Node), h.length ≤ i → h'[i]? = some nd → ∀ c ∈ nd.body.children, h.length ≤ c := by
+  obtain ⟨t, rfl, hid, hfresh, ⟨b, hb⟩⟩ := cpy_good n h.length h id p f h' id' (Nat.le_refl _) he
+  refine ⟨hid, ?_, ?_⟩
+  · subst hid
+    rcases Nat.lt_or_ge h.length (h ++ t).length with hl | hl
+    · exact hl
+    · rw [List.getElem?_eq_none hl] at hb; cases hb
+  · intro i nd hi hnd c hc
+    rw [List.getElem?_append_right hi] at hnd
+    exact hfresh nd (List.mem_of_getElem? hnd) c hc
+
+theorem copy_has_requested_context (n : Nat) (h h' : Heap) (id id' : Id) (p : Option Id) (f : String)
+    (he : cpy n h id p f = some (h', id')) : ∃ b, h'[id']? = some ⟨p, f, b⟩ := by
+  obtain ⟨_, _, _, _, hb⟩ := cpy_good n 0 h id p f h' id' (Nat.zero_le _) he
+  exact hb
+
+/-- non-vacuity: copying a two-node tree -/
+example : cpy 3 [⟨none, "", .sub [("a", 1)] []⟩, ⟨some 0, "a", .prim "int" "7"⟩] 0 (some 9) "k" =
+    some ([⟨none, "", .sub [("a", 1)] []⟩, ⟨some 0, "a", .prim "int" "7"⟩, ⟨some 9, "k", .sub [("a", 3)] []⟩, ⟨some 2, "a", .prim "int" "7"⟩], 2) := by
+  decide
+
+/-- list merges (append, prepend, replace, longer list): every node except the destination's own is untouched -/
+theorem append_leaves_sources_untouched (fuel : Nat) (src : List Id) (h h' : Heap) (to : Id) (p : Option Id) (f : String)
+    (d : List (String × Id)) (a : List Id)
+    (hg : getSub h to = some (p, f, d, a)) (he : appendCpy fuel h to src = some h') :
+    ∀ (i : Nat) (nd : Node), i ≠ to → h[i]? = some nd → h'[i]? = some nd := by
+  obtain ⟨_, _, _, _, _, _, hframe⟩ := appendCpy_spec fuel src h h' to p f d a hg he
+  exact hframe
+
+/-- ... and what the destination gains are new nodes -/
+theorem append_stores_new_nodes (fuel : Nat) (src : List Id) (h h' : Heap) (to : Id) (p : Option Id) (f : String)
+    (d : List (String × Id)) (a : List Id)
+    (hg : getSub h to = some (p, f, d, a)) (he : appendCpy fuel h to src = some h') :
+    ∃ new, getSub h' to = some (p, f, d, a ++ new) ∧ ∀ c ∈ new, h.length ≤ c := by
+  obtain ⟨new, h1, _, _, h4, _⟩ := appendCpy_spec fuel src h h' to p f d a hg he
+  exact ⟨new, h1, h4⟩
+
+/-- the in-place writes of Set*/Remove/Merge change exactly one node each -/
+theorem write_is_local_body (h : Heap) (id i : Id) (b : Body) (hne : i ≠ id) : (setBody h id b)[i]? = h[i]? :=
+  setBody_other h id i b hne
+
+theorem write_is_local_field (h : Heap) (id i : Id) (f : String) (hne : i ≠ id) : (setField h id f)[i]? = h[i]? :=
+  setField_other h id i f hne
+
+/-- Remove from a list touches the list's node and the elements it moves, nothing else -/
+theorem delAt_is_local (h : Heap) (to : Id) (i j : Nat) (p : Option Id) (f : String) (d : List (String × Id)) (a : List Id)
+    (hg : getSub h to = some (p, f, d, a)) (hj : j ≠ to) (hja : j ∉ a) : (delAt h to i)[j]? = h[j]? := by
+  unfold delAt
+  rw [hg]
+  simp only
+  split
+  · have : j ∉ (a.eraseIdx i).drop i := fun hc => hja (List.mem_of_mem_eraseIdx (List.mem_of_mem_drop hc))
+    rw [renumber_other _ _ _ _ this, setBody_other _ _ _ _ hj]
+  · rfl
+
 end Ucfg.C10
